@@ -119,7 +119,10 @@ def run(cx: Cx):
     cx.floor('add_agent success paths', n, 2)
     a_id = Sym(rem.params[1])
     agents = Attr(Sym(rem.params[0]), 'agents')
-    resident = [Sub(agents, a_id), App('.pop', (agents, a_id)), App('.get', (agents, a_id))]
+    rself = Sym(rem.params[0])
+    resident = [Sub(agents, a_id), App('.pop', (agents, a_id)), App('.get', (agents, a_id)),
+                App('call:' + CORE + 'Environment.get_agent', (rself, a_id)), App('call:' + CORE + 'Environment.get_agent', (rself, a_id, Const(True))),
+                App('call:' + CORE + 'Environment.get_agent', (rself, a_id), (('throw_error', Const(True)),))]
     n = 0
     for p in cx.walker.paths(rem, WalkOptions(unroll=2)):
         if p.end == 'raise':
